@@ -1,4 +1,5 @@
 import Model.BestScan
+import Model.Generated.Phases
 import Proofs.Lemmas.BestScan
 /-!
 # C15 -- the best individual reported by an island / archipelago
@@ -118,6 +119,49 @@ example : islandScan [((none : Key), 0), (some 5, 1), (none, 2), (some 3, 3), (s
 example : islandScan [((none : Key), 0), (none, 1)] = some (none, 1) := by decide
 example : islandScan (([[(none, 0), (some 5, 1)], [(none, 2)], [(some 7, 3), (some 4, 4)]] :
     List (List (Key × Nat))).filterMap islandScan) = some (some 4, 4) := by decide
+
+/-! ## the fitness-predictor island: reported fitness values are full-data fitness values
+
+`trueFit g` is the fitness of genome `g` on the full training data (`get_true_fitness_for_trainer`), the keys stored in
+the population are the PREDICTED fitness values the scan compares. -/
+
+/-- `FitnessPredictorIsland.get_best_individual`: the scan of the base class, copied, fitness replaced -/
+def fpiBest (trueFit : ι → Key) (pop : List (Key × ι)) : Option (Key × ι) :=
+  (islandScan pop).map fun b => (trueFit b.2, b.2)
+
+/-- `FitnessPredictorIsland._get_potential_hof_members`: every entry of the predicted-fitness hall of fame, deep-copied,
+fitness replaced -/
+def fpiHofMembers (trueFit : ι → Key) (hofPredicted : List (Key × ι)) : List (Key × ι) :=
+  hofPredicted.map fun e => (trueFit e.2, e.2)
+
+/-- the bodies the two definitions mirror (regenerated from the source), and the scan of the base class -/
+theorem gen_fpi_shapes :
+    Gen.Phases.fpiBestIndividual = "best_indv = super().get_best_individual().copy() ; best_indv.fitness = self._predictor_fitness_function.get_true_fitness_for_trainer(best_indv) ; return best_indv" ∧
+    Gen.Phases.fpiHofMembers = "self._evaluate_population_if_needed() ; self._hof_w_predicted_fitness.update(self.population) ; potential_members = [] ; for indv_w_ped_fitness in self._hof_w_predicted_fitness:     indv_w_true_fitness = deepcopy(indv_w_ped_fitness)     indv_w_true_fitness.fitness = self._predictor_fitness_function.get_true_fitness_for_trainer(indv_w_true_fitness)     potential_members.append(indv_w_true_fitness) ; return potential_members" ∧
+    Gen.Phases.islandBestIndividual = "if self.generational_age == 0:     self.evaluate_population() ; best = self.population[0] ; for indv in self.population:     if indv.fitness < best.fitness or np.isnan(best.fitness).any():         best = indv ; return best" := ⟨rfl, rfl, rfl⟩
+
+/-- the reported best individual of a predictor island is the member the (predicted-fitness) scan selects, and the fitness
+attached to it is its fitness on the full data, whatever the predictor -/
+theorem fpi_best_true (trueFit : ι → Key) (pop : List (Key × ι)) (r : Key × ι) (h : fpiBest trueFit pop = some r) :
+    r.1 = trueFit r.2 ∧ ∃ b ∈ pop, islandScan pop = some b ∧ b.2 = r.2 := by
+  unfold fpiBest at h
+  cases hs : islandScan pop with
+  | none => simp [hs] at h
+  | some b =>
+    simp only [hs, Option.map_some, Option.some.injEq] at h
+    subst h
+    exact ⟨rfl, b, (island_scan pop b hs).1, rfl, rfl⟩
+
+/-- every potential hall-of-fame member of a predictor island carries its full-data fitness -/
+theorem fpi_hof_true (trueFit : ι → Key) (hofPredicted : List (Key × ι)) :
+    ∀ e ∈ fpiHofMembers trueFit hofPredicted, e.1 = trueFit e.2 := by
+  intro e he
+  simp only [fpiHofMembers, List.mem_map] at he
+  obtain ⟨a, _, rfl⟩ := he
+  rfl
+
+example : fpiBest (fun g : Nat => some (Int.ofNat g * 10)) [((some 5 : Key), 1), (some 2, 7), (none, 3)] = some (some 70, 7) := by
+  decide
 
 end C15
 end Bingo
